@@ -242,7 +242,56 @@ def cycW (w : Cmd → Nat) : Option CycState → List (Nat × Ring Cmd) → Nat
 
 /-- everything in flight -/
 def Sys.flow (w : Cmd → Nat) (s : Sys) : Nat :=
-  cycW w s.cyc s.rxs + pendW w s.threads + wsum w (s.deferred.map Cmd.commit)
+  cycW w s.cyc s.rxs + pendW w s.threads + wsum w (s.deferred.map Cmd.commit) + wsum w s.carried
+
+/-- a weight that counts span sets per token item: the weight of a span set submitted under a token
+    is the sum of its weights under the single items.  (The collector may split a span set between
+    two cycles, item by item; nothing is conserved at a coarser grain.) -/
+def Additive (w : Cmd → Nat) : Prop :=
+  ∀ sp tok, w (.submit sp tok) = (tok.map fun it => w (.submit sp [it])).sum
+
+theorem Additive.filter_split {w : Cmd → Nat} (hw : Additive w) (sp : SpanSet) (tok : Token) (p : TokenItem → Bool) :
+    w (.submit sp tok) = w (.submit sp (tok.filter p)) + w (.submit sp (tok.filter fun it => !p it)) := by
+  rw [hw sp tok, hw sp (tok.filter p), hw sp (tok.filter fun it => !p it)]
+  induction tok with
+  | nil => rfl
+  | cons x xs ih =>
+    cases hp : p x <;> simp [List.filter, hp] at ih ⊢ <;> omega
+
+theorem Additive.nil {w : Cmd → Nat} (hw : Additive w) (sp : SpanSet) : w (.submit sp []) = 0 := by
+  rw [hw sp []]; rfl
+
+/-- the second pass is split without loss: handled now + carried + its commits -/
+theorem splitSecond_w {w : Cmd → Nat} (hw : Additive w) (cb : Bool) (c1 c2 : Coll) (cm : List Nat) (l : List Cmd) :
+    wsum w l = wsum w (splitSecond cb c1 c2 cm l).1 + wsum w (splitSecond cb c1 c2 cm l).2 + wsum w (l.filter Cmd.isCommit) := by
+  induction l with
+  | nil => rfl
+  | cons x xs ih =>
+    cases x with
+    | start id => simp only [splitSecond, List.filter, Cmd.isCommit, wsum_cons] at ih ⊢; omega
+    | commit id => simp only [splitSecond, List.filter, Cmd.isCommit, wsum_cons] at ih ⊢; omega
+    | drop id =>
+      simp only [splitSecond, List.filter, Cmd.isCommit]
+      split <;> simp only [wsum_cons] at ih ⊢ <;> omega
+    | submit sp tok =>
+      simp only [splitSecond, List.filter, Cmd.isCommit, wsum_cons]
+      generalize carryItem cb c2 cm sp = carry
+      have hs := hw.filter_split sp tok carry
+      have hn := hw.nil sp
+      by_cases h1 : (tok.filter fun it => !carry it).isEmpty <;> by_cases h2 : (tok.filter carry).isEmpty <;>
+        simp only [h1, h2, if_true, if_false, Bool.false_eq_true, wsum_cons] at ih ⊢
+      · have e1 : (tok.filter fun it => !carry it) = [] := by simpa using h1
+        have e2 : tok.filter carry = [] := by simpa using h2
+        rw [e1, e2, hn] at hs
+        omega
+      · have e1 : (tok.filter fun it => !carry it) = [] := by simpa using h1
+        rw [e1, hn] at hs
+        omega
+      · have e2 : tok.filter carry = [] := by simpa using h2
+        rw [e2, hn] at hs
+        omega
+      · omega
+
 
 /-- everything that has left the channels -/
 def Ghost.out (w : Cmd → Nat) (g : Ghost) : Nat :=
@@ -255,7 +304,7 @@ theorem Sys.setTh_flow (w : Cmd → Nat) (s : Sys) (t : Nat) (th' : Th) :
   have := pendW_setTh w s t th'
   unfold Sys.flow
   simp only [Sys.setTh_cyc, Sys.setTh_rxs]
-  show cycW w s.cyc s.rxs + pendW w (s.setTh t th').threads + wsum w (s.deferred.map Cmd.commit) + _ = _
+  show cycW w s.cyc s.rxs + pendW w (s.setTh t th').threads + wsum w (s.deferred.map Cmd.commit) + wsum w s.carried + _ = _
   omega
 
 theorem Sys.setTh_flow_same (w : Cmd → Nat) (s : Sys) (t : Nat) (th' : Th) (h : th'.pending = (s.th t).pending) :
@@ -314,8 +363,10 @@ theorem Sys.register_flow (w : Cmd → Nat) (s s' : Sys) (t : Nat) (h : s.regist
       unfold Sys.flow at hs ⊢
       simp only [Sys.setTh_cyc, Sys.setTh_rxs, hc, cycW] at hs ⊢
       simp only [ringsW_append, ringsW_cons, ringsW_nil, Ring.new, wsum_nil]
-      show ringsW w s.rxs + 0 + 0 + pendW w (s.setTh t _).threads + wsum w (s.deferred.map Cmd.commit) = _
+      show ringsW w s.rxs + 0 + 0 + pendW w (s.setTh t _).threads + wsum w (s.deferred.map Cmd.commit) + wsum w s.carried = _
       have : (s.setTh t { s.th t with registered := true }).deferred = s.deferred := rfl
+      rw [this] at hs
+      have : (s.setTh t { s.th t with registered := true }).carried = s.carried := rfl
       rw [this] at hs
       omega
     | some cs =>
@@ -330,8 +381,10 @@ theorem Sys.register_flow (w : Cmd → Nat) (s s' : Sys) (t : Nat) (h : s.regist
         simp only [Sys.setTh_cyc, Sys.setTh_rxs, hc, cycW] at hs ⊢
         simp only [ringsW_append, ringsW_cons, ringsW_nil, Ring.new, wsum_nil]
         show ringsW w cs.todo + (ringsW w cs.kept + (0 + 0)) + wsum w cs.buf + wsum w cs.buf2
-          + pendW w (s.setTh t _).threads + wsum w (s.deferred.map Cmd.commit) = _
+          + pendW w (s.setTh t _).threads + wsum w (s.deferred.map Cmd.commit) + wsum w s.carried = _
         have : (s.setTh t { s.th t with registered := true }).deferred = s.deferred := rfl
+        rw [this] at hs
+        have : (s.setTh t { s.th t with registered := true }).carried = s.carried := rfl
         rw [this] at hs
         omega
 
